@@ -15,6 +15,7 @@ Driver for C17 (remote read/write lock): reads traces produced by the `rwlock` h
                check accepts exactly the values possible under some placement; this also is the
                durability check (late reads must see the last commit that returned `Ok`);
         drop   the scribbled value of a dropped write guard is never observed;
+        err    no request or commit fails while the owner is alive and the connection is up;
         hang   no operation is pending after all guards were released and the system settled;
                a hang is classified by shape (`shape=`), so that the known deadlock F5 can be
                told from any other hang;
@@ -382,6 +383,12 @@ def processTrace (variant : Variant) (name : String) (lines : Array String) : IO
           if !possible commits v a i then
             res := res.fail "fresh" s!"line={i} writer {k} (started at line {a}) was given {v}, which was not the latest committed value at any instant of the request"
     | "e" :: "wcommit" :: _ | "e" :: "wdrop" :: _ => heldW := heldW.filter (· != natArg w 2)
+    | "e" :: "rerr" :: _ | "e" :: "werr" :: _ =>
+      if !dead.contains (epOfOp (natArg w 2)) then
+        res := res.fail "err" s!"line={i} request {natArg w 2} failed although the owner is alive and its connection is up"
+    | "e" :: "wdone" :: _ =>
+      if w[3]? != some "ok" && !dead.contains (epOfOp (natArg w 2)) then
+        res := res.fail "err" s!"line={i} commit of {natArg w 2} failed although the owner is alive and its connection is up"
     | "hang" :: _ => hangs := hangs ++ [(natArg w 1, w[2]?.getD "?", w[3]?.getD "?")]
     | _ => pure ()
     -- ------------------------------------------------ replay on the model (exact mode)
@@ -480,7 +487,7 @@ def processTrace (variant : Variant) (name : String) (lines : Array String) : IO
   for (p, t) in res.fails do IO.println s!"FAIL {name} {p} {t}"
   let st (p : String) := if res.fails.any (·.1 == p) then "fail" else "ok"
   let rp := if (!exact && modelLine.isNone) || (replayLost && res.diffs.isEmpty) then "skipped" else if res.diffs.isEmpty then "ok" else "mismatch"
-  IO.println s!"END {name} events={ws.size} replay={rp} compared={replayed} excl={st "excl"} fresh={st "fresh"} drop={st "drop"} hang={st "hang"} crash={st "crash"}"
+  IO.println s!"END {name} events={ws.size} replay={rp} compared={replayed} excl={st "excl"} fresh={st "fresh"} drop={st "drop"} hang={st "hang"} err={st "err"} crash={st "crash"}"
 
 structure TraceAcc where
   name : Option String := none
